@@ -35,15 +35,15 @@
     reads do not address `local.oplog` (outside the Spec: it has no oplog).
 
   COVERED (`covered c = true`, proved outright): insertOne, insertMany (ordered/unordered), find,
-  findOne, count, estimatedCount, distinct, deleteOne, deleteMany, findOneAndDelete, dropIndex,
+  findOne, count, estimatedCount, distinct, deleteOne, deleteMany, findOneAndDelete, createIndex, dropIndex,
   dropAllIndexes, dropIndexByKey, listIndexes, createCollection, dropCollection, dropDatabase,
   listCollections, listDatabases.
   NOT YET PROVED (the Spec defines them and stream `seq` compares them with the real driver; the
-  full statement is `api_refines_full` in the comment at the end): createIndex, replaceOne,
+  full statement is in the comment at the end): replaceOne,
   updateOne/Many (+ upsert), findOneAndReplace/Update, bulkWrite, expire — with the exact missing
   lemma for each.
 -/
-import Lungo.Proofs.SeqMgmt
+import Lungo.Proofs.SeqIndex
 import Lungo.Props.C15
 import Lungo.Props.C07
 namespace Lungo.C01
@@ -165,6 +165,12 @@ theorem refines_dropCollection (s : Sys) (h : Handle) (oids : List V) (hi : SysI
 theorem refines_dropDatabase (s : Sys) (name : String) (oids : List V) (hi : SysInv sch s) :
     Refines sch s (.dropDatabase name) oids := SeqRef.refines_dropDatabase s name oids hi
 
+/-- createIndex: name defaulting, same-definition no-op, name/key conflicts, definition validity, and
+    the build over the stored documents (a unique build over existing duplicates fails with `dup`) -/
+theorem refines_createIndex (s : Sys) (h : Handle) (name : String) (cfg : IndexConfig) (oids : List V)
+    (hi : SysInv sch s) (ok : OkDB (abs s.catalog)) : Refines sch s (.createIndex h name cfg) oids :=
+  SeqRef.refines_createIndex s h name cfg oids hi ok
+
 theorem refines_dropIndex (s : Sys) (h : Handle) (name : String) (oids : List V) :
     Refines sch s (.dropIndex h name) oids := SeqRef.refines_dropIndex s h name oids
 
@@ -179,7 +185,7 @@ theorem refines_dropIndexByKey (s : Sys) (h : Handle) (key : Doc) (oids : List V
 /-- the calls whose refinement is proved -/
 def covered : Call → Bool
   | .insertOne .. | .insertMany .. | .find .. | .findOne .. | .count .. | .estCount _ | .distinct ..
-  | .deleteOne .. | .deleteMany .. | .findOneAndDelete .. | .dropIndex .. | .dropAllIndexes _
+  | .deleteOne .. | .deleteMany .. | .findOneAndDelete .. | .createIndex .. | .dropIndex .. | .dropAllIndexes _
   | .dropIndexByKey .. | .listIndexes _ | .createCollection _ | .dropCollection _ | .dropDatabase _
   | .listCollections .. | .listDatabases _ => true
   | _ => false
@@ -233,7 +239,7 @@ theorem api_refines_partial {s : Sys} {c : Call} {oids : List V} (hi : SysInv sc
   | findOneAndReplace _ _ _ _ _ _ _ => cases hc
   | findOneAndUpdate _ _ _ _ _ _ _ _ => cases hc
   | bulkWrite _ _ _ => cases hc
-  | createIndex _ _ _ => cases hc
+  | createIndex h name cfg => exact refines_createIndex s h name cfg oids hi ok
   | expire _ => cases hc
 
 /-! ### histories -/
@@ -338,10 +344,6 @@ example : Spec.step sch (abs Sys.init.catalog) (.insertOne demoH [("a", .i32 1)]
   where `WFfull` adds, for the calls below, `QueryOk` of their filters, `DocOk` of replacement /
   upserted / updated documents (results of `Apply` on stored documents are Go values).
   Missing lemmas, call by call:
-  * createIndex — `build_admitAll`: for an index `i` coherent for the documents `base`,
-      buildRes (i.build sch list) = admitAll sch [(n, i.config)] (base.map doc) (list.map doc)
-    (induction on `list` with `add_eq` at each step and `IndexCoherent.add` to advance `base`), plus
-    `validDef cfg = (newIndex cfg).map (fun _ => ())` and `lookup`/`any` through `shape`.
   * replaceOne / findOneAndReplace — `replace_upd_admits`: on a coherent collection,
       (Coll.replace.upd sch old nw idx).map (fun _ => ()) = admits sch ((docs without old).map doc) nw.doc (shape idx)
     (per index: `IndexCoherent.remove` then `add_eq` over `docs \ {old}`), and
